@@ -424,6 +424,25 @@ func TestC09(t *testing.T) {
 	}
 	col.Exhaustive(fmt.Sprintf("%d overriding pairs, one per attribute (scalars later-wins, maps united key-wise, non-empty arguments replace, empty arguments keep, calls/tags/decorators append), each as explicit list and under one glob", len(overridePairs())))
 
+	// hand-built: values that end in line breaks, written as literal block scalars (|, |+): as the last node of an input
+	// file the value reaches to the end of the document, in the single-file form something follows it
+	if ev.Mine(7) {
+		for seed := uint64(0); seed < 6; seed++ {
+			texts := []string{"x\n\n", "a\nb\n\n\n", "k: v\n", "two\nlines"}
+			ta, tb := texts[seed%4], texts[(seed+1)%4]
+			pfile := cfg.Config{Params: []cfg.Param{{Name: "a", Val: cfg.Int(1)}, {Name: "banner", Val: cfg.Str(ta)}}}
+			sfile := cfg.Config{Services: []cfg.Service{{Name: "s", Ctor: sp("fx/lib.NewObj"), Args: []cfg.Val{cfg.Int(2), cfg.Str(tb)}}}}
+			whole := cfg.Config{Meta: cfg.Meta{Pkg: sp("app")}, Params: pfile.Params, Services: sfile.Services}
+			mfile := cfg.Config{Meta: whole.Meta}
+			for _, order := range [][]cfg.Config{{mfile, pfile, sfile}, {sfile, pfile, mfile}, {pfile, mfile, sfile}} {
+				names := []string{"x1.yaml", "x2.yaml", "x3.yaml"}
+				for _, pats := range [][]string{names, {"x*.yaml"}} {
+					c09Eval(t, c09Case{Whole: whole, Files: order, Names: names, Patterns: pats, Style: cfg.Style{Seed: seed, Blocks: true}, Bracket: 1 + int(seed%2), Labels: []string{"hand-built:block-scalar-ends-the-file"}})
+				}
+			}
+		}
+	}
+
 	setRapidChecks(pick(120, 1200))
 	opts := gen.All()
 	opts.PkgMain = true
